@@ -80,14 +80,17 @@ def rowsKs (st : St) (sel : Expr) (lists : List (List Nat)) : Keyed.KState :=
   (Keyed.build 1 (listAt lists (newEff st (st.res sel)).2.1) [] (newEff st (st.res sel)).2.2.next).mount none
 
 /-- … and the fold that builds its rows -/
-def rowsFold (st : St) (sel : Expr) (lists : List (List Nat)) (row : View) : List (Nat × RState) × St :=
-  (listAt lists (newEff st (st.res sel)).2.1).foldl (rowStep (rowsKs st sel lists) (build row))
+def rowsFold (st : St) (en : Bool) (sel : Expr) (lists : List (List Nat)) (row : View) :
+    List (Nat × Option Nat × RState) × St :=
+  ((listAt lists (newEff st (st.res sel)).2.1).zip
+      (List.range (listAt lists (newEff st (st.res sel)).2.1).length)).foldl
+    (rowStep en (rowsKs st sel lists) (build row))
     ([], { (newEff st (st.res sel)).2.2 with next := (rowsKs st sel lists).w.next })
 
-theorem build_forRows (sel : Expr) (lists : List (List Nat)) (row : View) (st : St) :
-    build (.forRows sel lists row) st =
-      (.rows (newEff st (st.res sel)).1 sel lists row (rowsKs st sel lists) (mkChain (rowsFold st sel lists row).1),
-       (rowsFold st sel lists row).2.spawn (newEff st (st.res sel)).1) := rfl
+theorem build_forRows (en : Bool) (sel : Expr) (lists : List (List Nat)) (row : View) (st : St) :
+    build (.forRows en sel lists row) st =
+      (.rows (newEff st (st.res sel)).1 en sel lists row (rowsKs st sel lists) (mkChain (rowsFold st en sel lists row).1),
+       (rowsFold st en sel lists row).2.spawn (newEff st (st.res sel)).1) := rfl
 
 theorem rebuild_scope (sid : Nat) (d : LDef) (kid : View) (m0 sid0 : Nat) (s0 : Bool) (inner : RState) (st : St) :
     rebuild (.scope sid d kid) (.scope m0 sid0 s0 inner) st =
@@ -100,14 +103,21 @@ theorem rebuild_scope (sid : Nat) (d : LDef) (kid : View) (m0 sid0 : Nat) (s0 : 
        (rebuild kid inner { (newLocal (killAll st [m0]) sid d).2 with
             locals := (newLocal (killAll st [m0]) sid d).1 :: (newLocal (killAll st [m0]) sid d).2.locals }).2.2) := rfl
 
-theorem rowStep_book (ks : Keyed.KState) (b : St → RState × St) (hb : ∀ st, Book st (b st).2)
-    (acc : List (Nat × RState) × St) (k : Nat) : Book acc.2 (rowStep ks b acc k).2 := by
-  have h1 := alloc_book acc.2
-  have h2 : Book acc.2.alloc.2 { acc.2.alloc.2 with locals := [], key := (k : Int) } := Book.of_eq rfl rfl
-  have h3 := hb { acc.2.alloc.2 with locals := [], key := (k : Int) }
-  have h4 : Book (b { acc.2.alloc.2 with locals := [], key := (k : Int) }).2 (rowStep ks b acc k).2 :=
-    Book.of_eq rfl rfl
-  exact ((h1.trans h2).trans h3).trans h4
+theorem rowStep_book (en : Bool) (ks : Keyed.KState) (b : St → RState × St) (hb : ∀ st, Book st (b st).2)
+    (acc : List (Nat × Option Nat × RState) × St) (ki : Nat × Nat) : Book acc.2 (rowStep en ks b acc ki).2 := by
+  unfold rowStep
+  dsimp only
+  have h0 : Book acc.2 (if en then (acc.2.addDef (.sig (ki.2 : Int))).2 else acc.2) := by
+    split
+    · exact addDef_book _ _
+    · exact Book.refl _
+  generalize (if en then (acc.2.addDef (.sig (ki.2 : Int))).2 else acc.2) = s0 at h0
+  have h1 := alloc_book s0
+  refine (h0.trans h1).trans ?_
+  generalize (if en then some acc.2.prog.length else none : Option Nat).toList = ls
+  have h2 : Book s0.alloc.2 { s0.alloc.2 with locals := ls, key := (ki.1 : Int) } := Book.of_eq rfl rfl
+  have h3 := hb { s0.alloc.2 with locals := ls, key := (ki.1 : Int) }
+  exact (h2.trans h3).trans (Book.of_eq rfl rfl)
 
 theorem dropRow_book (items : RState) (st : St) (k : Nat) : Book st (dropRow items st k) := by
   unfold dropRow
@@ -146,13 +156,14 @@ theorem build_book : ∀ (v : View) (st : St), Book st (build v st).2 := by
     refine ((newLocal_book st sid d).trans ?_).trans (Book.of_eq rfl rfl)
     exact (Book.of_eq rfl rfl : Book (newLocal st sid d).2 { (newLocal st sid d).2 with
       locals := (newLocal st sid d).1 :: (newLocal st sid d).2.locals }).trans (ih _)
-  | forRows sel lists row ih =>
+  | forRows en sel lists row ih =>
     intro st
     rw [build_forRows]
     have h1 : Book st { (newEff st (st.res sel)).2.2 with next := (rowsKs st sel lists).w.next } :=
       Book.of_eq rfl rfl
-    have h2 := foldl_book (rowStep (rowsKs st sel lists) (build row)) (rowStep_book _ _ ih)
-      (listAt lists (newEff st (st.res sel)).2.1)
+    have h2 := foldl_book (rowStep en (rowsKs st sel lists) (build row)) (rowStep_book _ _ _ ih)
+      ((listAt lists (newEff st (st.res sel)).2.1).zip
+        (List.range (listAt lists (newEff st (st.res sel)).2.1).length))
       ([], { (newEff st (st.res sel)).2.2 with next := (rowsKs st sel lists).w.next })
     exact (h1.trans h2).trans (spawn_book _ _)
 
@@ -226,21 +237,33 @@ theorem rebuild_book : ∀ (v : View) (old : RState) (st : St), Book st (rebuild
       exact (Book.of_eq rfl rfl : Book (newLocal (killAll st [m0]) sid d).2
         { (newLocal (killAll st [m0]) sid d).2 with
           locals := (newLocal (killAll st [m0]) sid d).1 :: (newLocal (killAll st [m0]) sid d).2.locals }).trans (ih _ _)
-  | forRows sel lists row _ => intro old st; exact replace_book _ _ _
+  | forRows en sel lists row _ => intro old st; exact replace_book _ _ _
 
 
 theorem rerunFor_book (st : St) (ks : Keyed.KState) (texts : List (Nat × Nat)) (keys : List Nat) :
     Book st (rerunFor st ks texts keys).2.2.1 := Book.of_eq rfl rfl
 
-theorem rerunRows_book (st : St) (row : View) (ks : Keyed.KState) (items : RState) (keys : List Nat) :
-    Book st (rerunRows st row ks items keys).2.2.1 := by
+theorem setIx_book (items : RState) (st : St) (ki : Nat × Nat) : Book st (setIx items st ki) := by
+  unfold setIx
+  split
+  · exact Book.of_eq rfl rfl
+  · exact Book.refl _
+
+theorem rerunRows_book (st : St) (en : Bool) (row : View) (ks : Keyed.KState) (items : RState) (keys : List Nat) :
+    Book st (rerunRows st en row ks items keys).2.2.1 := by
   simp only [rerunRows]
   generalize Keyed.rebuild _ keys = ks'
   have h1 : Book st { st with next := ks'.w.next } := Book.of_eq rfl rfl
   have h2 := foldl_book' (dropRow items) (dropRow_book items) ks'.w.log.unmounts { st with next := ks'.w.next }
-  have h3 := foldl_book (rowStep ks' (build row)) (rowStep_book _ _ (build_book row))
-    (ks'.w.log.builds.map (·.1)) ([], ks'.w.log.unmounts.foldl (dropRow items) { st with next := ks'.w.next })
-  exact (h1.trans h2).trans h3
+  generalize ks'.w.log.unmounts.foldl (dropRow items) { st with next := ks'.w.next } = s2 at h2
+  have h2' : Book s2 (if en then ks'.w.log.setIndex.foldl (setIx items) s2 else s2) := by
+    split
+    · exact foldl_book' (setIx items) (setIx_book items) _ _
+    · exact Book.refl _
+  generalize (if en then ks'.w.log.setIndex.foldl (setIx items) s2 else s2) = s3 at h2'
+  have h3 := foldl_book (rowStep en ks' (build row)) (rowStep_book _ _ _ (build_book row))
+    ks'.w.log.builds ([], s3)
+  exact ((h1.trans h2).trans h2').trans h3
 
 theorem rerunIn_book (e : Nat) (w : Int) : ∀ (t : RState) (st : St), Book st (rerunIn e w t st).2.1 := by
   intro t
@@ -273,13 +296,13 @@ theorem rerunIn_book (e : Nat) (w : Int) : ∀ (t : RState) (st : St), Book st (
     · exact rerunFor_book st ks texts _
     · exact Book.refl st
   | scope m sid isSig inner ih => intro st; simp only [rerunIn]; exact ih st
-  | rows e' sel lists row ks items ih =>
+  | rows e' en sel lists row ks items ih =>
     intro st
     simp only [rerunIn]
     split
-    · exact rerunRows_book st row ks items _
+    · exact rerunRows_book st en row ks items _
     · exact ih st
-  | rowCons k r rest ihr ihrest => intro st; simp only [rerunIn]; exact (ihr st).trans (ihrest _)
+  | rowCons k ix r rest ihr ihrest => intro st; simp only [rerunIn]; exact (ihr st).trans (ihrest _)
   | rowNil => intro st; exact Book.refl st
 
 theorem rerunZombies_book (e : Nat) (w : Int) : ∀ (zs : List (Nat × Option RState)) (st : St),
